@@ -199,6 +199,15 @@ def c14_acquiringWithoutKey : List (Nat × Nat) :=
       !f.isUnsafe && !f.testOnly && !hasKeyParam f &&
       f.callees.any fun c => acquiringCallees.contains c).map fun f => (i.selfTy.head, f.name)
 
+/-- `Debug::fmt` impls that take a lock without a key (through the crate's `try_*_no_key` helpers)
+and then format the protected value — user code that runs during a hold the thread never paid a
+key for -/
+def c14_debugHoldsWithoutKey : List (Nat × Nat) :=
+  (implsOfTrait Sym.Debug).flatMap fun i =>
+    (i.fns.filter fun f => f.name == Sym.fmt &&
+      f.callees.any fun c => c == Sym.try_lock_no_key || c == Sym.try_read_no_key || c == Sym.try_write_no_key ||
+        acquireOps.contains c).map fun f => (i.selfTy.head, f.name)
+
 /-- functions that hand out a reference to a key, or return a key by value without taking a key
 or a key-holding guard by value -/
 def c14_keyLeaks : List (Nat × Nat) :=
